@@ -19,7 +19,7 @@ from sim import stubs
 PROP = "C19"
 LEVEL = "fault_enumeration"
 HASH_VARIANTS = 1
-RUNS = {"quick": 1600, "thorough": 720000}
+RUNS = {"quick": 1600, "thorough": 240000}
 WALL_LIMIT = {"quick": 1500, "thorough": 5 * 3600}
 DET_SAMPLE = {"quick": 48, "thorough": 400}
 PROBES = ["kill_inside_copy", "kill_between_files", "kill_holding_lock", "load_during_population",
@@ -29,7 +29,7 @@ PROBES = ["kill_inside_copy", "kill_between_files", "kill_holding_lock", "load_d
           "populator_interrupted_by_io_error", "waiter_gave_up_at_timeout", "load_not_judged_lock_timeout",
           "s5_refresh_overlaps_populator", "s5_load_overlaps_refresh", "load_retried_in_same_process",
           "hung_holder_then_killed", "interval_truth_checked", "tz_not_utc", "tmp_on_other_device",
-          "waiter_entered_after_waiting", "refresh_attempt_with_clock_behind_timestamp", "cache_reached_through_symlink"]
+          "waiter_entered_after_waiting", "refresh_attempt_with_clock_behind_timestamp", "cache_reached_through_symlink", "two_threads_of_one_process"]
 RULE = ("Runs 0..S1_N-1 enumerate every crash point (kill before step k, plain and with a torn variant of a pending "
         "write, k = 0..139; probe s1_enum_kill_beyond_last_step shows the enumeration passed the last step) of the "
         "population of one (quick) / six (thorough) fixed file subsets, each followed by fresh loads of every file "
@@ -164,6 +164,7 @@ class _PerProcessGlobals:
     def __init__(self, W, sim):
         import copy
         self.copy = copy
+        self.W = W
         self.items = W["globals0"]["containers"]
         self.views = {}
         self.current = None
@@ -178,18 +179,22 @@ class _PerProcessGlobals:
             obj.clear()
             obj.update(val)
 
+    def key(self, p):
+        return self.W["group_of"].get(p.pid, p.pid)
+
     def switch_in(self, p):
-        if self.current == p.pid or not self.items:
+        if not self.items or self.current == self.key(p):
+            self.current = self.key(p)
             return
-        view = self.views.get(p.pid)
+        view = self.views.get(self.key(p))
         for i, (m, name, obj, fresh) in enumerate(self.items):
             self._put(obj, self.copy.deepcopy(fresh) if view is None else view[i])
-        self.current = p.pid
+        self.current = self.key(p)
 
     def switch_out(self, p):
         if not self.items:
             return
-        self.views[p.pid] = [self.copy.copy(obj) for (_, _, obj, _) in self.items]
+        self.views[self.key(p)] = [self.copy.copy(obj) for (_, _, obj, _) in self.items]
 
 
 def _check_lock_stub_against_real(base):
@@ -405,8 +410,13 @@ def generate(run_index, seed, tier):
         if g.chance(0.4):
             procs.append(_proc(g, "populate"))
         if g.chance(0.3):
-            p = g.pick(procs)
-            p["faults"].append({"kind": "kill", "step": g.randrange(0, 20), "torn": None})
+            # two of them are threads of one process (a service handling two requests): same pid, same module state
+            for p in procs[:2]:
+                p["group"] = 1
+        if g.chance(0.3):
+            p = g.pick([q for q in procs if q.get("group") is None] or procs)
+            if p.get("group") is None:
+                p["faults"].append({"kind": "kill", "step": g.randrange(0, 20), "torn": None})
         if g.chance(0.3):
             p = g.pick(procs)
             p["faults"].append({"kind": "stall", "step": g.randrange(2, 20), "dur": round(g.uniform(0.5, 4.0), 3)})
@@ -559,7 +569,8 @@ class _Env:
         self._set(hc, "HED_CACHE_DIRECTORY", os.path.join(self.root, "cache"))
         self._set(hl, "time", stubs.FakeTimeModule(sim, tz_west=self.tz))
         # process identity: every simulated process has its own pid (they are threads of one interpreter)
-        self._set(os, "getpid", lambda: 4000 + (sim.current().pid if sim.current() is not None else 0))
+        group_of = self.W["group_of"]
+        self._set(os, "getpid", lambda: 4000 + (group_of.get(sim.current().pid, sim.current().pid) if sim.current() is not None else 0))
         self._set(hl, "portalocker", stubs.make_fake_portalocker(self.lockworld, default_timeout=5.0))
         self._set(hc, "make_url_request", self.peer.make_url_request)
         self._set(su, "make_url_request", self.peer.make_url_request)
@@ -754,6 +765,7 @@ def execute(sc, script=None):
     fs = SimFS(sim, [root], chunk=sc["chunk"], copy_bufsize=sc["bufsize"], permute_listing=sc["permute"],
                proxy_reads=sc["proxy_reads"], devices=(["tmp"] if sc.get("tmp_dev") else []))
     fs.rel_filter = _canon_rel
+    W["group_of"] = {}      # simulated pid -> id of the OS process it is a thread of (absent: a process of its own)
     _reset_process_globals(W)
     _PerProcessGlobals(W, sim)
     W["attempt_seq"] = {}
@@ -777,6 +789,8 @@ def execute(sc, script=None):
                 for spec in ph["procs"]:
                     fn = _actor(spec["kind"], spec["args"], W, sim, root, peer)
                     p = sim.spawn(spec["kind"], fn, start_at=t_phase + spec["start"], op_dur=spec["dur"])
+                    if spec.get("group") is not None:
+                        W["group_of"][p.pid] = 9000 + 10 * pi + int(spec["group"])      # a thread of that process
                     for f in spec["faults"]:
                         ff = dict(f)
                         ff["pid"] = p.pid
@@ -814,6 +828,8 @@ def execute(sc, script=None):
         faults["net_partition_hit"] = n_net_down
     if sc.get("enumerated") and not sim.fired.get("kill"):
         probe("s1_enum_kill_beyond_last_step")     # the enumeration ran past the populator's last step: it is complete
+    if any(pr.get("group") is not None for ph in sc["phases"] for pr in ph["procs"]):
+        probe("two_threads_of_one_process")
     if sc.get("link"):
         probe("cache_reached_through_symlink")
     if sc.get("tz"):
